@@ -44,7 +44,7 @@ CHECKS = {
             "Tie: ReadXml tree vs the model on the abstract document AND on the token stream recorded from encoding/xml for the same bytes; malformed texts.", "5 C09, 15",
             " encoding/xml (bytes to tokens, entities, charsets) is an oracle whose token stream is recorded by the harness."),
     "C10": ("Coq invariant proof over the store's event consumer + correspondence on scripted parser streams + 10^6-event stack probe",
-            "Theorems (all conforming streams): Pos is strictly increasing in document order (unique; 0 only at the root; element < namespaces < attributes < children), inherited namespace nodes are fresh nodes of the element. "
+            "Theorems (all conforming streams): Pos is strictly increasing in document order (unique; 0 only at the root; element < namespaces < attributes < children), inherited namespace nodes are fresh nodes of the element, and with its own declarations they bind, for every prefix, what the element declares or else what its parent has in scope, however many bindings those are (xmlns=\"\" removes the default one). "
             "Tie: fact 'createInMemory is a loop' + full-tree dump correspondence incl. every Pos() and Parent() identity. Stack use of the real goroutine is measured (partial clause).", "5 C10, 15", ""),
     "C11": ("Coq theorems on name resolution incl. renaming invariance for all expressions + correspondence under varied binding environments and instrumented user functions",
             "Theorems: variables return exactly the bound value, user functions take precedence over builtins and receive the evaluated arguments and context, unbound references are errors, name tests use only the query's bindings; "
